@@ -93,6 +93,38 @@ def rule_memo_dir(ctx, f, imp):
     ctx.floor("C20-PROV-memo", n, 3, "insertions into the old -> new memo (clone_ref, clone_plainref, clone_rcref)")
 
 
+def rule_once(ctx, f, imp):
+    ctx.rule("C20-ONCE", "an old object that already has an entry in the old -> new memo is never created (or promised) again: on the hit branch of "
+             "every memo look-up no create / promise is reachable")
+    n = 0
+    for name, b in sorted(imp.items()):
+        fl = Flow(b)
+        cfg = CFG(b)
+        makes = [(bi, t) for bi, t in F.calls(b) if last_seg(F.callee_name(t)) in ("create", "promise") and "Updater" in (F.callee_name(t) + str(t.get("trait")))]
+        for bi, t in F.calls(b):
+            if last_seg(F.callee_name(t)) != "get" or "HashMap" not in F.callee_name(t) or t.get("target") is None:
+                continue
+            fs = set()
+            fl.origins(arg_local(t, 0), fields=fs)
+            if "map" not in fs:
+                continue
+            sw = b["blocks"][t["target"]]["term"]
+            if sw["k"] != "switch":
+                continue
+            n += 1
+            arms = {a[0]: a[1] for a in sw["arms"]}
+            hit = arms.get(1, sw["otherwise"])
+            miss = arms.get(0, sw["otherwise"])
+            if hit == miss:
+                continue
+            reach = cfg.reachable_from(hit, avoid={t["target"]}) | {hit}
+            again = [m for m, mt in makes if m in reach]
+            ctx.check(not again, "C20-ONCE", "%s#memo-hit" % b["id"], "an object found in the memo can still reach create / promise: an object copied once (for example through "
+                      "an untyped reference) and met again is copied a second time, and what was shared in the source is no longer shared in the target", t["span"],
+                      detail="hit branch of map.get(old) reaches no create / promise")
+    ctx.floor("C20-ONCE", n, 3, "memo look-ups (clone_ref, clone_plainref, clone_rcref)")
+
+
 def rule_pair2(ctx, f, imp):
     ctx.rule("C20-PAIR2", "a look-up in the typed memo (rcrefs) is never unwrapped: objects copied through untyped references are in `map` only")
     n = 0
@@ -326,6 +358,7 @@ def run(ctx):
     rule_pair1(ctx, f, imp)
     rule_memo_dir(ctx, f, imp)
     rule_pair2(ctx, f, imp)
+    rule_once(ctx, f, imp)
     rule_kinds(ctx, f)
     rule_closure(ctx, f)
     rule_streams(ctx, f)
